@@ -199,7 +199,7 @@ def format_cases(tier, rng, names):
                     cases.append({'levels': levels, 'times': tv, 'curves': cv,
                                   'release_node': rel, 'loop_node': loop})
     # random
-    nrand = 1500 if tier == 'quick' else 20000
+    nrand = 20000 if tier == 'quick' else 250000
     for _ in range(nrand):
         n = rng.choice([1, 1, 2, 2, 3, 4, 5, 8])
         levels = [rng.choice(LEVEL_POOL) if rng.random() < 0.6
@@ -331,7 +331,7 @@ def ctor_cases(tier, rng, names):
     for name in ('adsr', 'asr', 'dadsr', 'perc', 'linen', 'triangle', 'sine',
                  'cutoff', 'step'):
         cases.append((name, {}))
-    reps = 60 if tier == 'quick' else 1500
+    reps = 500 if tier == 'quick' else 6000
 
     def some(d):   # random subset of keyword arguments
         keys = sorted(d)
@@ -457,7 +457,7 @@ def _allowed_curves(a, b, names):
 
 def at_cases(tier, rng, names):
     cases = []
-    nrand = 400 if tier == 'quick' else 6000
+    nrand = 2500 if tier == 'quick' else 25000
     numeric = [-8, -8.0, -4, -1.5, -0.5, 0, 0.0, 0.3, 1, 2.5, 4.0, 8]
     # one segment of every shape, rising and falling
     for nm in names:
@@ -631,7 +631,12 @@ def check_envgen(spec, rate='kr'):
     _counter[0] += 1
     try:
         sd = SynthDef('c19_%d' % _counter[0], graph)
-        data = sd.as_bytes()
+        view = sd.as_bytes()
+        data = bytes(view)
+        if isinstance(view, memoryview):
+            # the definition keeps a view on a BytesIO buffer; an unreleased
+            # view can crash the interpreter at shutdown
+            view.release()
     except Exception as e:
         return False, 'raises %s: %s' % (type(e).__name__, e), exp
     defs = scgf.parse(data)
@@ -653,7 +658,7 @@ def run_envgen(rep, bad_names):
         cases.append(({'levels': [0, 1, 0.5], 'times': [0.1, 0.3],
                        'curves': nm, 'release_node': None,
                        'loop_node': None}, 'kr'))
-    nrand = 150 if rep.tier == 'quick' else 1500
+    nrand = 600 if rep.tier == 'quick' else 6000
     for _ in range(nrand):
         n = rng.choice([1, 2, 3, 5])
         spec = {'levels': [_rlevel(rng) for _ in range(n + 1)],
